@@ -4076,7 +4076,7 @@ namespace gch
 
         // Ensure we use this specific overload to give a strong exception guarantee for 1 element.
         if (end_ptr () == pos)
-          return append_range (first, last, std::input_iterator_tag { });
+          return append_range<strong_exception_policy> (first, last, std::input_iterator_tag { });
 
         using iterator_cat = typename std::iterator_traits<InputIt>::iterator_category;
         small_vector_base tmp (first, last, iterator_cat { }, allocator_ref ());
